@@ -106,6 +106,9 @@ fn construct_common(ty: &'static str, lang: LanguageIdentifier, arg: String, fai
 struct FmtA(Inst);
 struct FmtB(Inst);
 struct FmtF(Inst);
+/// a second formatter type with the SAME `Args` type as `FmtA`: a cache keyed by the argument type (or one that
+/// lets kinds with equal arguments share a table) conflates A and C
+struct FmtC(Inst);
 
 impl Memoizable for FmtA {
     type Args = (String,);
@@ -132,6 +135,13 @@ impl Memoizable for FmtB {
         construct_common("B", lang, hex(&(args.0).0), 0).map(FmtB)
     }
 }
+impl Memoizable for FmtC {
+    type Args = (String,);
+    type Error = String;
+    fn construct(lang: LanguageIdentifier, args: Self::Args) -> Result<Self, Self::Error> {
+        construct_common("C", lang, hex(&args.0), 0).map(FmtC)
+    }
+}
 impl Memoizable for FmtF {
     type Args = (String, u32);
     type Error = String;
@@ -156,6 +166,7 @@ fn callback(i: &Inst, x: u32) -> String {
 enum Key {
     A(String),
     B(String),
+    C(String),
     F(String, u32),
 }
 
@@ -176,7 +187,7 @@ fn canon_u32(s: &str) -> Option<u32> {
 }
 
 fn parse_lang(l: &str) -> Option<LanguageIdentifier> {
-    if !["en", "en-US", "pl", "fr-CA", "de", "und"].contains(&l) {
+    if !["en", "en-US", "pl", "fr-CA", "de", "und", "ca", "ca-valencia", "de-1901", "de-1996"].contains(&l) {
         return None;
     }
     let id: LanguageIdentifier = l.parse().ok()?;
@@ -191,6 +202,7 @@ fn parse_lookup(ty: &str, arg: &str, x: &str, via: &str) -> Option<Lookup> {
     let key = match ty {
         "A" => Key::A(fvh::util::hex_str(arg)?),
         "B" => Key::B(fvh::util::hex_str(arg)?),
+        "C" => Key::C(fvh::util::hex_str(arg)?),
         "F" => {
             let (h, n) = arg.split_once('.')?;
             if n.len() != 1 {
@@ -217,6 +229,8 @@ fn lookup_seq(m: &SeqMemo, l: &Lookup) -> Result<String, String> {
         (Key::A(s), false) => m.with_try_get::<FmtA, _, _>((s.clone(),), |f| callback(&f.0, x)),
         (Key::B(s), false) => m.with_try_get::<FmtB, _, _>((WeakHashArgs(s.clone()),), |f| callback(&f.0, x)),
         (Key::F(s, n), false) => m.with_try_get::<FmtF, _, _>((s.clone(), *n), |f| callback(&f.0, x)),
+        (Key::C(s), false) => m.with_try_get::<FmtC, _, _>((s.clone(),), |f| callback(&f.0, x)),
+        (Key::C(s), true) => m.with_try_get_threadsafe::<FmtC, _, _>((s.clone(),), |f| callback(&f.0, x)),
         (Key::A(s), true) => m.with_try_get_threadsafe::<FmtA, _, _>((s.clone(),), |f| callback(&f.0, x)),
         (Key::B(s), true) => m.with_try_get_threadsafe::<FmtB, _, _>((WeakHashArgs(s.clone()),), |f| callback(&f.0, x)),
         (Key::F(s, n), true) => {
@@ -231,6 +245,8 @@ fn lookup_conc(m: &ConcMemo, l: &Lookup) -> Result<String, String> {
         (Key::A(s), false) => m.with_try_get::<FmtA, _, _>((s.clone(),), |f| callback(&f.0, x)),
         (Key::B(s), false) => m.with_try_get::<FmtB, _, _>((WeakHashArgs(s.clone()),), |f| callback(&f.0, x)),
         (Key::F(s, n), false) => m.with_try_get::<FmtF, _, _>((s.clone(), *n), |f| callback(&f.0, x)),
+        (Key::C(s), false) => m.with_try_get::<FmtC, _, _>((s.clone(),), |f| callback(&f.0, x)),
+        (Key::C(s), true) => m.with_try_get_threadsafe::<FmtC, _, _>((s.clone(),), |f| callback(&f.0, x)),
         (Key::A(s), true) => m.with_try_get_threadsafe::<FmtA, _, _>((s.clone(),), |f| callback(&f.0, x)),
         (Key::B(s), true) => m.with_try_get_threadsafe::<FmtB, _, _>((WeakHashArgs(s.clone()),), |f| callback(&f.0, x)),
         (Key::F(s, n), true) => {
